@@ -213,7 +213,7 @@ class Bmc(object):
     """OK answers as a function of (request class name, request payload bytes)."""
 
     def __init__(self, variant='default'):
-        self.variant = variant          # 'default' | 'short' | 'busyhpm'
+        self.variant = variant          # 'default' | 'short' | 'busyhpm' | 'failhpm'
         self.fru = fru_image()
         self.sdrs = sdr_records()
         self.sels = sel_records()
@@ -312,7 +312,11 @@ class Bmc(object):
         return [0x00, 0x00] + data
 
     def _a_GetUpgradeStatus(self, p):
-        return [0x00, 0x00, 0x31, 0x80 if self.variant == 'busyhpm' else 0x00, 0x32]
+        # HPM.1 Get upgrade status: PICMG id, command in progress, LAST COMPLETION CODE of the long duration
+        # command (80h while it executes, then its final code: 00h success, anything else failure), estimate.
+        # default: ended with 00h | busyhpm: 80h for as long as anyone polls | failhpm: ended with 82h
+        last = {'busyhpm': 0x80, 'failhpm': 0x82}.get(self.variant, 0x00)
+        return [0x00, 0x00, 0x31, last, 0x32]
 
     # raw path ------------------------------------------------------------------------
     def answer_raw(self, netfn, raw):
